@@ -64,3 +64,9 @@ Fixpoint k_iter (fuel: nat) (step: kv -> res (option kv)) (x: kv) : res kv :=
            | Ok None => Ok x
            | Raise e => Raise e end
   end.
+
+(* ---- set.add on a set kept as a duplicate-free list (K17) ---- *)
+Definition k_set_add (s x: kv) : res kv :=
+  match s with
+  | KList l => Ok (KList (if existsb (kv_eqb x) l then l else l ++ [x]))
+  | _ => Raise AttributeError end.
